@@ -36,7 +36,7 @@ import (
 )
 
 var c06Bases = []string{"d.doc", "d.pre", "d.cor", "d.syn", "d.synpre", "d.syncor", "d.deep", "d.deepsyn",
-	"e.val", "e.graph", "e.graphk", "e.deep", "e.rectype", "e.alias", "e.keys"}
+	"e.val", "e.graph", "e.graphk", "e.deep", "e.rectype", "e.alias", "e.keys", "e.cycval"}
 var c06Suffixes = []string{"", ".deepnest", ".selfref"}
 
 func init() {
@@ -322,6 +322,9 @@ func c06Prepare(fn, args string) *c06case {
 		c.impl = func() string { return encodeDeep(p[0], atoi(p[1]), atoi(p[2])) }
 	case "e.rectype":
 		c.impl = func() string { return recType(p[0]) }
+	case "e.cycval":
+		c.oracle = func() string { return cycVal(p[0], atoi(p[1]), true) }
+		c.impl = func() string { return cycVal(p[0], atoi(p[1]), false) }
 	case "e.alias":
 		c.oracle = func() string { return aliasCase(atoi(p[0]), atoi(p[1]), true) }
 		c.impl = func() string { return aliasCase(atoi(p[0]), atoi(p[1]), false) }
@@ -1275,6 +1278,109 @@ func recType(name string) string {
 	return noPanic
 }
 
+// values that are cyclic ONLY through slices of structs or arrays (no pointer, map or interface on the cycle): a slice
+// whose backing array holds a struct (or an array of structs) that holds the slice itself
+type cyTree struct {
+	Name string
+	Kids []cyTree
+}
+type cyCell struct{ S [][2]cyCell }
+type cyChapter struct{ Sections []cySection }
+type cySection struct {
+	Title    string
+	Chapters []cyChapter
+}
+type cyEmb struct{ Rows cyRows }
+type cyRows []cyRow
+type cyRow struct {
+	cyEmb
+	N int
+}
+
+func cycVal(shape string, root int, std bool) string {
+	var v any
+	switch shape {
+	case "tree", "treeok":
+		kids := make([]cyTree, 3)
+		kids[0].Name, kids[2].Name = "a", "c"
+		if shape == "tree" {
+			kids[1].Kids = kids
+		} else {
+			kids[1].Kids = make([]cyTree, 2) // acyclic control
+		}
+		switch root {
+		case 0:
+			v = kids
+		case 1:
+			v = &kids
+		case 2:
+			v = kids[1]
+		case 3:
+			v = &kids[1]
+		case 4:
+			v = map[string]any{"k": kids}
+		default:
+			v = []any{cyTree{Kids: kids}}
+		}
+	case "cell":
+		cells := make([][2]cyCell, 2)
+		cells[1][1].S = cells
+		switch root {
+		case 0:
+			v = cells
+		case 1:
+			v = &cells
+		case 2:
+			v = cells[1]
+		default:
+			v = map[string]any{"k": cyCell{S: cells}}
+		}
+	case "mutual":
+		ch := make([]cyChapter, 2)
+		se := make([]cySection, 2)
+		ch[1].Sections = se
+		se[0].Chapters = ch
+		switch root {
+		case 0:
+			v = ch
+		case 1:
+			v = se
+		case 2:
+			v = &ch[1]
+		default:
+			v = []any{se[0]}
+		}
+	case "rows":
+		rows := make(cyRows, 2)
+		rows[0].Rows = rows
+		switch root {
+		case 0:
+			v = rows
+		case 1:
+			v = &rows
+		case 2:
+			v = rows[0]
+		default:
+			v = map[string]any{"k": &rows[0]}
+		}
+	default:
+		panic("c06: unknown cyclic value " + shape)
+	}
+	var err error
+	if std {
+		_, err = stdjson.Marshal(v)
+	} else {
+		_, err = json.Marshal(v)
+		if err2 := json.NewEncoder(io.Discard).Encode(v); (err == nil) != (err2 == nil) {
+			return "Marshal and Encoder disagree"
+		}
+		if _, err3 := json.Append(nil, v, 0); (err == nil) != (err3 == nil) {
+			return "Marshal and Append disagree"
+		}
+	}
+	return coarse(classifyEncode(err))
+}
+
 // interior pointers: &s.T has the address of s, so the address-keyed cycle detection of BOTH libraries may
 // report a cycle that is not there once tracking is on; what must hold is only: no crash, and error-vs-ok as encoding/json.
 type alT struct{ X any }
@@ -1496,6 +1602,11 @@ func c06Generate() {
 	for _, shape := range []string{"ptr", "slice", "map", "gmap", "iface", "pptr", "mixed"} {
 		for _, n := range deepNs {
 			c06Case("e.deep", fmt.Sprintf("%s|%d|%d", shape, n, rndn(4)))
+		}
+	}
+	for _, shape := range []string{"tree", "treeok", "cell", "mutual", "rows"} {
+		for root := 0; root < 6; root++ {
+			c06Case("e.cycval", fmt.Sprintf("%s|%d", shape, root))
 		}
 	}
 	for _, a := range []int{0, 1, 2, 998, 999, 1000, 1001, 1002, 2000} {
@@ -1851,6 +1962,7 @@ func (g *gGen) leaves() {
 			}
 		}
 	}
+	jEncSeqAll() // failed encodes followed by other encodes: a panic or a wrong result from stale pooled scratch state
 }
 
 func c06Graphs(thorough bool) {
